@@ -22,6 +22,7 @@ import (
 	"fmt"
 	"math/rand"
 	"net"
+	"sort"
 	"strings"
 	"testing"
 	"time"
@@ -179,6 +180,42 @@ func TestVerifC08Sec(t *testing.T) {
 			edesc = append(edesc, fmt.Sprintf("%s: stored=%v ttl=%v cut=%v/%v", e.label, time.Duration(p.virt(v.Stored)), v.TTL, !v.CutUntil.IsZero(), time.Duration(p.virt(v.CutUntil))))
 		}
 
+		// what the derived denial stores (RFC 8020 cut, RFC 8198 proof index) filed for the zone under the second tree,
+		// and what the denial's own records allow them: the minimum over the SOA minimum and the original TTLs the
+		// signatures cover (the records' TTLs as published)
+		dttl := int64(-1)
+		if rep2 != nil {
+			for _, rr := range rep2.Ns {
+				var v int64 = -1
+				switch x := rr.(type) {
+				case *dns.SOA:
+					v = int64(x.Minttl)
+				case *dns.RRSIG:
+					v = int64(x.OrigTtl)
+				}
+				if v >= 0 && (dttl < 0 || v < dttl) {
+					dttl = v
+				}
+			}
+		}
+		var derived, derivedDesc []string
+		for _, d := range cachemw.VC08DerivedDenials(p.cm) {
+			if dns.CanonicalName(d.Zone) != dns.CanonicalName(z.name) {
+				continue
+			}
+			exp := int64(d.Expires.Sub(p.base))
+			if d.Shifted {
+				exp = p.virt(d.Expires)
+			}
+			derived = append(derived, vC08Z(exp)+"%Z")
+			derivedDesc = append(derivedDesc, fmt.Sprintf("%s %s exp=%v", d.Kind, d.Name, time.Duration(exp)))
+		}
+		sort.Strings(derivedDesc)
+		if okSecond && (dttl < 0 || len(derived) == 0) {
+			// a validated denial of a signed zone always reaches the derived stores
+			goFail = fmt.Sprintf("lab: the signed denial left nothing in the derived denial stores (proof ttl %d, records %d)", dttl, len(derived))
+		}
+
 		// the parent withdraws the delegation; the clock moves just past the granted lease
 		n.root.mu.Lock()
 		delete(n.root.children, z.name)
@@ -198,6 +235,23 @@ func TestVerifC08Sec(t *testing.T) {
 		}
 		before := z.asked(wname, dns.TypeA) + z.asked(nxname, dns.TypeA) + z.asked(z.name, dns.TypeDNSKEY)
 		t4 := p.now()
+		// first a question below the denied name (the old cut covers it) and a fresh name of the zone (the old proof's
+		// NSEC interval covers it): neither may be answered with the old child's proof - its SOA names the zone, the
+		// parent's denial names the root
+		oldDenial, oldDesc := false, ""
+		for _, name := range []string{"a." + nxname, fmt.Sprintf("nz%d.%s", c, z.name)} {
+			rd := p.ask(name, dns.TypeA, r.Intn(2) == 0)
+			if rd == nil {
+				inconcl = true
+				continue
+			}
+			for _, rr := range rd.Ns {
+				if soa, ok := rr.(*dns.SOA); ok && dns.CanonicalName(soa.Hdr.Name) == dns.CanonicalName(z.name) {
+					oldDenial = true
+					oldDesc += fmt.Sprintf(" %s: rcode=%d with the SOA of %s;", name, rd.Rcode, z.name)
+				}
+			}
+		}
 		rep3 := p.ask(wname, dns.TypeA, r.Intn(2) == 0)
 		after := z.asked(wname, dns.TypeA) + z.asked(nxname, dns.TypeA) + z.asked(z.name, dns.TypeDNSKEY)
 		rc3 := -1
@@ -207,7 +261,11 @@ func TestVerifC08Sec(t *testing.T) {
 			inconcl = true
 		}
 		childAsked := after != before
-		if !inconcl && okFirst && (rc3 == dns.RcodeSuccess || childAsked) {
+		if !inconcl && okFirst && goFail == "" && oldDenial {
+			goFail = fmt.Sprintf("ghost: %v after the delegation of %s was observed (lease min(NS %d, DS %d, 12h) s, withdrawn) the old child's denial proof still answers:%s",
+				time.Duration(t4-t1), z.name, nsTTL, dsTTL, oldDesc)
+		}
+		if !inconcl && okFirst && goFail == "" && (rc3 == dns.RcodeSuccess || childAsked) {
 			goFail = fmt.Sprintf("ghost: %s asked at t=%v, %v after the delegation was observed (lease min(NS %d, DS %d, 12h) s, withdrawn): rcode=%d, old child asked=%v",
 				wname, time.Duration(t4), time.Duration(t4-t1), nsTTL, dsTTL, rc3, childAsked)
 		}
@@ -216,10 +274,11 @@ func TestVerifC08Sec(t *testing.T) {
 		}
 		m := map[string]any{
 			"k": "sec-lease", "go_fail": goFail, "nontrivial": okFirst,
-			"coq": fmt.Sprintf("CaseSec %d %d %s %s %s %s %s [%s] %s %s %s", nsTTL, dsTTL, vC08Z(t0), vC08Z(t1), vC08Z(t2), vC08Z(t3), delegTerm, strings.Join(es, "; "),
-				vC08Z(t4), vC08B(rc3 == dns.RcodeNameError), vC08B(childAsked)),
-			"desc": fmt.Sprintf("zone %s NS TTL %d DS TTL %d answer TTL %d: first reply ok=%v (t %v..%v), denial ok=%v; delegation exp=%s; entries %v; withdrawn, asked again at t=%v: rcode=%d child asked=%v",
-				z.name, nsTTL, dsTTL, ansTTL, okFirst, time.Duration(t0), time.Duration(t1), okSecond, delegDesc, edesc, time.Duration(t4), rc3, childAsked),
+			"coq": fmt.Sprintf("CaseSec %d %d %s %s %s %s %s [%s] %s [%s] %s %s %s %s", nsTTL, dsTTL, vC08Z(t0), vC08Z(t1), vC08Z(t2), vC08Z(t3), delegTerm, strings.Join(es, "; "),
+				vC08Z(dttl*int64(time.Second)), strings.Join(derived, "; "),
+				vC08Z(t4), vC08B(rc3 == dns.RcodeNameError), vC08B(childAsked), vC08B(oldDenial)),
+			"desc": fmt.Sprintf("zone %s NS TTL %d DS TTL %d answer TTL %d: first reply ok=%v (t %v..%v), denial ok=%v (t %v..%v); delegation exp=%s; entries %v; derived denial records (proof allows %ds) %v; withdrawn, asked again at t=%v: rcode=%d child asked=%v old denial served=%v%s",
+				z.name, nsTTL, dsTTL, ansTTL, okFirst, time.Duration(t0), time.Duration(t1), okSecond, time.Duration(t2), time.Duration(t3), delegDesc, edesc, dttl, derivedDesc, time.Duration(t4), rc3, childAsked, oldDenial, oldDesc),
 		}
 		if inconcl {
 			m["inconclusive"] = true
